@@ -161,13 +161,14 @@ def _arch():
 ARCH_STR = "Layered Architecture: Layer A: [r.a]; Layer B: [r.b]; Layer C: [^r\\.c$]"
 
 LR_ACTIONS = [
-    ("based_on",), ("layers_that",), ("named", "A"), ("named", "B"), ("named_list", ("A", "B")),
+    ("based_on",), ("based_on_empty",), ("layers_that",), ("named", "A"), ("named", "B"), ("named_list", ("A", "B")),
     ("named_list", ("A",)), ("should",), ("should_only",), ("should_not",),
     ("access_layers_that",), ("be_accessed_by_layers_that",), ("access_layers_except_layers_that",),
     ("be_accessed_by_layers_except_layers_that",), ("access_any_layer",), ("be_accessed_by_any_layer",),
 ]
 LR_METHODS = {
     "based_on": lambda o: o.based_on(_arch()),
+    "based_on_empty": lambda o: o.based_on(LayeredArchitecture()),  # an architecture without any layer (yet)
     "named": lambda o, n: o.are_named(n),
     "named_list": lambda o, ns: o.are_named(list(ns)),
 }
@@ -190,17 +191,22 @@ def lr_spec_step(st, action):
     """st = (has_arch, has_rule, phase, n_subjects)."""
     has_arch, has_rule, phase, nsub = st
     kind = action[0]
-    if kind == "based_on":
+    if kind in ("based_on", "based_on_empty"):
         if has_arch:
             return DONT, st, None
-        return ACCEPT, (True, has_rule, phase, nsub), None
+        # has_arch is True or "empty" (an architecture without layers: naming a layer is then a lookup of
+        # something undefined, on which the statement makes no demand)
+        return ACCEPT, (True if kind == "based_on" else "empty", has_rule, phase, nsub), None
     if not has_arch:
         return REJECT, st, None  # a layer rule needs an architecture first
     if kind == "layers_that":
-        return FREE, (True, True, "subject", 0), None
+        # with an architecture given - whatever it contains - a rule may be started
+        return ACCEPT, (has_arch, True, "subject", 0), None
     if not has_rule:
         return DONT, st, None
     if kind in ("named", "named_list"):
+        if has_arch == "empty":
+            return FREE, st, None
         if phase == "subject":
             if kind == "named_list":
                 return (REJECT if len(action[1]) > 1 else DONT), st, None
@@ -210,7 +216,7 @@ def lr_spec_step(st, action):
         return FREE, st, None
     if kind in ("should", "should_only", "should_not"):
         return FREE, st, None
-    return FREE, (True, True, "object", nsub), None
+    return FREE, (has_arch, True, "object", nsub), None
 
 
 # ------------------------------------------------------------------------------- plan / run
@@ -252,8 +258,10 @@ def run_shard(shard, tier, seed):
                     now = la_observe(a)["str"]
                 except Exception as e:  # noqa: BLE001
                     now = f"{type(e).__name__}: {e}"
-                if now != ARCH_STR:
-                    res.violation("building-a-layer-rule-changed-the-architecture-definition", {"history": [list(x) for x in hist]}, ARCH_STR, now)
+                first = next((a[0] for a in hist if a[0] in ("based_on", "based_on_empty")), "based_on")
+                want = ARCH_STR if first == "based_on" else "Layered Architecture: "
+                if now != want:
+                    res.violation("building-a-layer-rule-changed-the-architecture-definition", {"history": [list(x) for x in hist]}, want, now)
                     return
             rule = getattr(obj, "_rule", None)
             subs = getattr(rule, "rule_subjects", None) if rule is not None else None
